@@ -21,7 +21,8 @@ RECURSIVE PairsFrom(_, _, _)
 PairsFrom(n, i, j) == IF i >= n THEN <<>>
                       ELSE IF j > n THEN PairsFrom(n, i + 1, i + 2)
                       ELSE <<<<i, j>>>> \o PairsFrom(n, i, j + 1)
-PairSeq(n) == PairsFrom(n, 1, 2)              \* combinations(range(n), 2), 1-based
+PairSeqs == [n \in 0..MaxN |-> PairsFrom(n, 1, 2)]   \* constant: TLC evaluates it once
+PairSeq(n) == PairSeqs[n]                     \* combinations(range(n), 2), 1-based
 
 Graph(n, G) == [n |-> n, e |-> SelectSeq(PairSeq(n), LAMBDA p : p \in G)]
 
